@@ -70,7 +70,7 @@ def rand_wtree(rng, depth, shape=None, base=0):
         if not pshape:
             return parent
         rev, trans = segtree.rand_orient(rng, len(pshape))
-        return {'kind': 'reorient', 'parent': parent, 'rev': rev, 'trans': trans}
+        return segtree.maybe_complex(rng, {'kind': 'reorient', 'parent': parent, 'rev': rev, 'trans': trans})
     if r < 0.8:
         # blocks: tiling (possibly padded children are modelled by subset children over larger leaves)
         ndim = rng.choice([1, 2, 2])
@@ -98,7 +98,7 @@ def rand_wtree(rng, depth, shape=None, base=0):
                 arrangement.append([[a, b, 1] for a, b in c])
         spec = {'kind': 'blocks', 'shape': shape_, 'children': children, 'arrangement': arrangement, 'fill': -7}
         spec['rev'], spec['trans'] = segtree.rand_orient(rng, ndim, 0.4, 0.3)
-        return spec
+        return segtree.maybe_complex(rng, spec)
     ndim_c = rng.choice([1, 2])
     cshape = segtree.rand_shape(rng, ndim_c, 1, 6)
     nb = rng.randint(2, 3)
@@ -112,7 +112,7 @@ def rand_wtree(rng, depth, shape=None, base=0):
         if cand:
             rev = sorted(rng.sample(cand, rng.randint(1, len(cand))))
     spec['rev'], spec['trans'] = rev, None
-    return spec
+    return segtree.maybe_complex(rng, spec)
 
 
 def axis_classes(rng, n, allow_stride=True):
@@ -174,7 +174,7 @@ def run_history(spec, chunks, modes, data, tmpdir, observe=True):
 def make_data(spec, rng):
     shape = tuple(segtree.full_shape_of(spec))
     n = int(numpy.prod(shape)) if shape else 1
-    is_complex = any(l.get('fmt') for l in _leaves(spec) if l.get('fmt'))
+    is_complex = bool(segmodel._fmts(spec))
     vals = numpy.arange(1, n + 1).reshape(shape)
     if segtree.has_polar(spec):
         # magnitude and phase that the uint16 storage holds exactly: m * exp(2 pi i t / 65536), m and t integers
@@ -227,7 +227,7 @@ def check_case(spec, chunks, modes, tmpdir, fails, stats, drv_jobs):
     stats['histories'] = stats.get('histories', 0) + 1
     # independent numpy expectation for identity formats: leaf sample <- data pixel that reads from it
     expected = None
-    if not any(l.get('fmt') for l in _leaves(spec)):
+    if not segmodel._fmts(spec):
         rb = segtree.Builder('r', tmpdir)
         try:
             _, orc = rb.build(spec)
@@ -368,7 +368,6 @@ def run(tier):
                 continue
             if not shape or any(n == 0 for n in shape):
                 continue
-            is_cplx = any(l.get('fmt') for l in _leaves(spec))
             chunks = rand_partition(rng, shape, allow_stride=True)
             modes = []
             for ch in chunks:
